@@ -19,6 +19,10 @@ open F64 TwoFloat
 
 instance (t : TwoFloat) : Decidable t.WF := by unfold TwoFloat.WF; infer_instance
 
+theorem ite_WF (c : Prop) [Decidable c] {a b : TwoFloat} (ha : a.WF) (hb : b.WF) :
+    (if c then a else b).WF := by
+  split_ifs <;> assumption
+
 theorem WF_mk {a b : F64} (ha : a.WF) (hb : b.WF) : (⟨a, b⟩ : TwoFloat).WF := ⟨ha, hb⟩
 
 theorem f64lit_WF_zero : (f64lit 0x0000000000000000).WF := by decide +kernel
